@@ -89,6 +89,12 @@ class _FieldOfDressed:
         else:
             self.content = None
             setattr(container._xobject, self.name, value)
+            if isinstance(
+                getattr(container._XoStruct, self.name).ftype, Ref
+            ) and hasattr(container, "_dressed_" + self.name):
+                # the reference does not denote the dressed object that
+                # was bound before anymore
+                delattr(container, "_dressed_" + self.name)
 
 
 class JEncoder(json.JSONEncoder):
